@@ -65,7 +65,19 @@ func RestoreCreateContainerV2Request(contractCalls []event.NotaryEvent) (event.E
 	res.MainTransaction = *cnrCall.Raw().MainTransaction
 
 	if withOptionalEacl {
-		ev, err := RestorePutContainerEACLRequest(contractCalls[1])
+		eaclCall := contractCalls[1]
+		// the additional call is co-signed together with the creation one, so it
+		// must be exactly the eACL setting method of the same (Container) contract
+		if !eaclCall.ScriptHash().Equals(cnrCall.ScriptHash()) {
+			return nil, fmt.Errorf("additional call is addressed to unexpected contract %s, expected %s",
+				eaclCall.ScriptHash().StringLE(), cnrCall.ScriptHash().StringLE())
+		}
+		if !eaclCall.Type().Equal(event.NotaryTypeFromString(fschaincontracts.PutContainerEACLMethod)) {
+			return nil, fmt.Errorf("additional call of unexpected method %q, expected %q",
+				eaclCall.Type(), fschaincontracts.PutContainerEACLMethod)
+		}
+
+		ev, err := RestorePutContainerEACLRequest(eaclCall)
 		if err != nil {
 			return nil, fmt.Errorf("additional eACL setting parsing: %w", err)
 		}
